@@ -1677,6 +1677,26 @@ class Engine:
         # quantifiers / spec helpers
         if fname in ('forall', 'exists') and node.args and isinstance(node.args[-1], ast.Lambda):
             return self.quant(fname, node, st)
+        if fname in ('all', 'any') and len(node.args) == 1 and isinstance(node.args[0], (ast.GeneratorExp, ast.ListComp)):
+            g = node.args[0]
+            if len(g.generators) != 1 or g.generators[0].ifs or g.generators[0].is_async:
+                raise Undecided('all/any over a filtered or nested generator')
+            it = self.ev(g.generators[0].iter, st)
+            if not isinstance(it, SList):
+                raise Undecided('all/any over %s' % ast.unparse(g.generators[0].iter))
+            if it.et is None:
+                return z3.BoolVal(fname == 'all')
+            i = z3.Int(fresh_name('gen_i'))
+            s2 = st.fork()
+            self.assign(g.generators[0].target, from_z3(z3.Select(it.arr, i), it.et), s2)
+            was = getattr(self, 'in_spec', False)
+            self.in_spec = True
+            try:
+                body = self.truthy(self.ev(g.elt, s2))
+            finally:
+                self.in_spec = was
+            rng = z3.And(i >= 0, i < it.len)
+            return z3.ForAll([i], z3.Implies(rng, body)) if fname == 'all' else z3.Exists([i], z3.And(rng, body))
         if fname == 'implies':
             a, b = [self.truthy(self.ev(x, st)) for x in node.args]
             return z3.Implies(a, b)
@@ -1844,6 +1864,29 @@ class Engine:
             if len(a) == 2:
                 return ('range', a[0], a[1], 1)
             raise Undecided('range with step')
+        if name == 'enumerate' and len(args) >= 1 and isinstance(args[0], SList):
+            L = args[0]
+            if L.et is None:
+                return SList(z3.IntVal(0), None, None)
+            start = to_z3(args[1], 'int') if len(args) > 1 else z3.IntVal(0)
+            tt = ('tuple', ('int', L.et))
+            i = z3.Int(fresh_name('enum_i'))
+            return SList(L.len, z3.Lambda([i], sort_of(tt).mk(i + start, z3.Select(L.arr, i))), tt)
+        if name in ('set', 'frozenset', 'sorted') and len(args) == 1 and isinstance(args[0], SList):
+            # over-approximation: set(L) has at most len(L) elements, all drawn from L (non-empty iff L is);
+            # sorted(L) has exactly len(L) elements drawn from L, in non-decreasing order
+            L = args[0]
+            if L.et is None:
+                return L
+            T = fresh_value(('list', L.et), name + '_of')
+            i, j = z3.Int(fresh_name('so_i')), z3.Int(fresh_name('so_j'))
+            st.assume(T.len >= 0)
+            st.assume(T.len <= L.len if name != 'sorted' else T.len == L.len)
+            st.assume(z3.Implies(L.len > 0, T.len > 0))
+            st.assume(z3.ForAll([i], z3.Implies(z3.And(i >= 0, i < T.len), z3.Exists([j], z3.And(j >= 0, j < L.len, z3.Select(T.arr, i) == z3.Select(L.arr, j))))))
+            if name == 'sorted' and L.et == 'int':
+                st.assume(z3.ForAll([i, j], z3.Implies(z3.And(0 <= i, i <= j, j < T.len), z3.Select(T.arr, i) <= z3.Select(T.arr, j))))
+            return T
         if name == 'cast' or name == 'typing.cast':
             return args[1]
         if name == 'isinstance':
